@@ -7,7 +7,7 @@
 From LibcoapV Require Import Base.Tactics Base.Bytes Persist.Fs Persist.FsProofs Persist.Records
   Persist.RecordsProofs Persist.Updaters Persist.Streams Persist.UpdatersProofs Persist.Discipline
   Persist.Server Persist.ServerProofs Persist.Counter Persist.Witness Persist.Footprint
-  Persist.LoadersProofs Persist.Restore.
+  Persist.LoadersProofs Persist.Restore Persist.History.
 Local Open Scope Z_scope.
 
 (* ------------------------------------------------------------------ C17_records_roundtrip *)
@@ -102,6 +102,21 @@ Theorem C17_atomic_history : forall app req alloc cfg pol m0 evs fs k i,
        (ps_view (ps_boot fs)) i.
 Proof. exact ps_process_crash_view. Qed.
 Print Assumptions C17_atomic_history.
+
+(* lifted over arbitrary histories by induction: for EVERY sequence of updater calls (whatever
+   the server core issues through its call-outs) from files holding a well-formed abstract state
+   A, every buffering policy and every kill point k: the three files hold exactly the abstract
+   state after the first j calls for some j - whole records only, the state before or after the
+   interrupted call, each call having the effect "other entries kept, this entry
+   replaced/appended/removed" (ps_abs_call) *)
+Theorem C17_atomic_update_histories : forall pol la lt fuel calls A s k,
+  0 < la -> 0 < lt ->
+  ps_abs_wf la lt A -> Forall (ps_call_wf la lt) calls -> (ps_abs_size A + length calls < fuel)%nat ->
+  ps_tmpw s -> ps_holdsA s A ->
+  exists j, (j <= length calls)%nat /\
+    ps_holdsA (ps_runk pol (ps_calls_prog la lt fuel calls) k s) (ps_abs_calls (firstn j calls) A).
+Proof. intros. apply ps_calls_crash; assumption. Qed.
+Print Assumptions C17_atomic_update_histories.
 
 (* ... and a rename installs one complete new file and leaves the other two alone *)
 Theorem C17_atomic_commit : forall pol i s,
